@@ -90,6 +90,11 @@ pub enum Op {
     /// set_reporter() once more, mid-run, with the same configuration: the collector starts from a
     /// fresh state (what it held of the traces in flight is gone) and a second collector thread runs
     ReplaceReporter { cancelable: bool, interval_ns: u64 },
+    /// n collector cycles in a row (a long quiet period measured in report intervals)
+    CycleBurst { n: u32 },
+    /// the thread creates and finishes n children of the span back to back, without being
+    /// pre-empted (a hot loop: thousands of commands inside one report interval)
+    SpanBurst { slot: Slot, n: u32 },
     /// caller-supplied code unwinds out of a tracing call (a name conversion or a property closure
     /// that panics; the harness catches it): the call must leave the thread's context untouched
     UserPanic { kind: u8 },
